@@ -35,23 +35,37 @@ func fileSafe(s string) string {
 	return r.Replace(s)
 }
 
-// dischargeAll runs every obligation through the solver race, 16 at a time.
+// dischargeAll runs every obligation through the solver race (parts of a split obligation separately).
 func dischargeAll(opts Options, outDir string, obls []*Obligation) []Discharged {
-	res := make([]Discharged, len(obls))
-	// scripts are rendered sequentially per unit (TermCtx is not thread safe), solved in parallel
-	scripts := make([]string, len(obls))
-	for i, o := range obls {
-		scripts[i] = o.Script(true)
+	type job struct {
+		o      *Obligation
+		parent int
 	}
+	var jobs []job
+	for i, o := range obls {
+		if len(o.Parts) > 0 {
+			for _, p := range o.Parts {
+				jobs = append(jobs, job{p, i})
+			}
+		} else {
+			jobs = append(jobs, job{o, i})
+		}
+	}
+	// scripts are rendered sequentially (TermCtx is not thread safe), solved in parallel
+	scripts := make([]string, len(jobs))
+	for i, j := range jobs {
+		scripts[i] = j.o.Script(true)
+	}
+	verdicts := make([]Verdict, len(jobs))
 	sem := make(chan struct{}, 6) // 3 solvers per obligation
 	var wg sync.WaitGroup
-	for i := range obls {
+	for i := range jobs {
 		wg.Add(1)
 		go func(i int) {
 			defer wg.Done()
 			sem <- struct{}{}
 			defer func() { <-sem }()
-			o := obls[i]
+			o := jobs[i].o
 			file := filepath.Join(outDir, fileSafe(o.Name)+".smt2")
 			v := Solve(scripts[i], file, opts.timeout(), opts.Tier == "thorough")
 			if o.Cover {
@@ -67,10 +81,33 @@ func dischargeAll(opts Options, outDir string, obls []*Obligation) []Discharged 
 			if v.Status == "proved" && !opts.Keep {
 				os.Remove(file)
 			}
-			res[i] = Discharged{o, v}
+			verdicts[i] = v
 		}(i)
 	}
 	wg.Wait()
+	res := make([]Discharged, len(obls))
+	for i, o := range obls {
+		res[i] = Discharged{O: o}
+	}
+	rank := map[string]int{"": 0, "proved": 1, "undecided": 2, "vacuous": 3, "conflict": 4, "refuted": 5}
+	for i, j := range jobs {
+		d := &res[j.parent]
+		v := verdicts[i]
+		if len(obls[j.parent].Parts) == 0 {
+			d.V = v
+			continue
+		}
+		d.V.Seconds += v.Seconds
+		d.V.Bytes += v.Bytes
+		if rank[v.Status] > rank[d.V.Status] {
+			secs, bytes := d.V.Seconds, d.V.Bytes
+			d.V = v
+			d.V.Seconds, d.V.Bytes = secs, bytes
+			if v.Status != "proved" {
+				obls[j.parent].Failed = j.o
+			}
+		}
+	}
 	return res
 }
 
@@ -130,15 +167,24 @@ func printUnit(opts Options, out string, r *UnitResult) int {
 		if d.V.Status != "proved" {
 			rc |= 1
 			fmt.Printf("             %s\n             %s\n", d.O.Src, d.V.Output)
-			if d.V.Status == "refuted" && opts.Verbose && d.O.Unit.fn != nil {
-				explain(d.O, out)
+			fo := d.O
+			if fo.Failed != nil {
+				fo = fo.Failed
+				fmt.Println("             failing part:", fo.Name)
+			}
+			if d.V.Status == "refuted" && opts.Verbose && fo.Unit.fn != nil {
+				explain(fo, out, fo.VC())
+			}
+			if d.V.Status == "undecided" && opts.Verbose && fo.Unit.fn != nil {
+				fmt.Println("             candidate explanation from the quantifier-free relaxation:")
+				explain(fo, out, fo.RelaxedVC())
 			}
 		}
 	}
 	return rc
 }
 
-func explain(o *Obligation, out string) {
+func explain(o *Obligation, out string, vc []*Term) {
 	u := o.Unit
 	var probes []probe
 	for i, p := range u.fn.Params {
@@ -155,7 +201,7 @@ func explain(o *Obligation, out string) {
 			mark(a)
 		}
 	}
-	for _, a := range o.VC() {
+	for _, a := range vc {
 		mark(a)
 	}
 	var keep []probe
@@ -165,10 +211,32 @@ func explain(o *Obligation, out string) {
 		}
 	}
 	probes = keep
-	vals, raw, err := o.GetValues(probes, 20, filepath.Join(out, fileSafe(o.Name)+".model.smt2"))
+	vals, raw, err := o.GetValuesFor(vc, probes, 20, filepath.Join(out, fileSafe(o.Name)+".model.smt2"))
 	if err != nil {
 		fmt.Println("             model:", err, strings.SplitN(raw, "\n", 2)[0])
 		return
+	}
+	// values of the top-level pieces of the proposition
+	{
+		var pp []probe
+		var walk func(t *Term, d int)
+		walk = func(t *Term, d int) {
+			if d > 3 || t.open || len(pp) > 24 {
+				return
+			}
+			if len(t.Args) > 0 && t.Op != "and" {
+				pp = append(pp, probe{Label: "term: " + trunc(t.String(), 160), T: t, Idx: -1})
+			}
+			for _, a := range t.Args {
+				walk(a, d+1)
+			}
+		}
+		walk(o.Prop, 0)
+		if pv, _, err := o.GetValuesFor(vc, pp, 20, filepath.Join(out, fileSafe(o.Name)+".prop.smt2")); err == nil {
+			for _, q := range pp {
+				fmt.Printf("               %s  ==  %s\n", q.Label, trunc(pv[q.Label], 80))
+			}
+		}
 	}
 	// which conjuncts of the proposition are false in the model?
 	if o.Prop.Op == "and" {
@@ -176,7 +244,7 @@ func explain(o *Obligation, out string) {
 		for i, cj := range o.Prop.Args {
 			cps = append(cps, probe{Label: fmt.Sprintf("conjunct %d: %s", i, trunc(cj.String(), 300)), T: cj, Idx: -1})
 		}
-		if cv, _, err := o.GetValues(cps, 20, filepath.Join(out, fileSafe(o.Name)+".conj.smt2")); err == nil {
+		if cv, _, err := o.GetValuesFor(vc, cps, 20, filepath.Join(out, fileSafe(o.Name)+".conj.smt2")); err == nil {
 			for _, cp := range cps {
 				if cv[cp.Label] == "false" {
 					fmt.Println("               FALSE", cp.Label)
